@@ -419,7 +419,7 @@ void
 harness_run(void)
 {
     vh_unit("bigtable", 0, u_bigtable, NULL);
-    for (uint64_t i = 0; i < (vh_tier ? 1200u : 128u); i++)
+    for (uint64_t i = 0; i < (vh_tier ? 6000u : 128u); i++)
         vh_unit("descs", i, u_descs, NULL);
     static const char *req[] = { "expected: success", "expected: no-areas", "expected: area-order",
                                  "expected: area-overlap", "expected: entry-order", "expected: entry-overlap",
